@@ -17,7 +17,7 @@ use std::collections::BTreeMap;
 
 pub const PROP: Property = Property { id: "C10", run, finish, shards: |_| 16, expect_s: |t| t.of(15, 150) };
 
-const KEYS: [&str; 14] = ["Name", "name", "NAME", "nam", "name_", "facts", "a", "b", "if", "i5", "1", "", "na me", "näme"];
+const KEYS: [&str; 18] = ["Name", "name", "NAME", "nam", "name_", "facts", "a", "b", "if", "i5", "1", "", "na me", "näme", "a.b", "facts.a", "a.0", "name.name"];
 
 #[derive(Clone, Debug)]
 enum Step {
@@ -226,6 +226,53 @@ fn check_index_spellings(ctx: &mut Ctx) {
     }
 }
 
+/// paths that start at a symbol, while the input has a field of the same name holding different data
+fn check_symbol_paths(ctx: &mut Ctx) {
+    let tree = |base: i128| -> Value {
+        let inner: BTreeMap<String, Value> = [("x".to_string(), Value::Int(base + 1)), ("y".to_string(), Value::Vec(vec![Value::Int(base + 2), Value::Int(base + 3)]))].into_iter().collect();
+        Value::Map(inner)
+    };
+    let mut symbols = BTreeMap::new();
+    symbols.insert("limits".to_string(), tree(9000));
+    symbols.insert("only_symbol".to_string(), tree(8000));
+    symbols.insert("facts".to_string(), tree(7000));
+    let mut facts = BTreeMap::new();
+    facts.insert("limits".to_string(), tree(1000));
+    facts.insert("only_field".to_string(), tree(2000));
+    let facts = Value::Map(facts);
+    let idx = |e: Expr, steps: &[&str]| -> Expr {
+        let mut e = e;
+        for s in steps {
+            e = match s.parse::<usize>() {
+                Ok(i) => Expr::index(e, Index::from(i)),
+                Err(_) => Expr::index(e, Index::from(*s)),
+            };
+        }
+        e
+    };
+    let mut rules = vec![];
+    for root in ["limits", "only_symbol", "only_field", "facts"] {
+        for steps in [vec![], vec!["x"], vec!["y"], vec!["y", "1"], vec!["y", "2"], vec!["z"], vec!["x", "x"]] {
+            rules.push((format!("sym :{root}.{}", steps.join(".")), idx(Expr::symbol(root), &steps)));
+            rules.push((format!("ref {root}.{}", steps.join(".")), idx(Expr::reff(root), &steps)));
+        }
+    }
+    let fx = build(&[], &symbols, &rules, FaultPlan::default());
+    let pred = fx.predict(&facts);
+    match fx.eval(&facts, 1) {
+        Ok(res) => {
+            for ((name, exp), (_, obs)) in pred.outcomes.iter().zip(res.outcomes.iter()) {
+                ctx.count();
+                ctx.hit("name:symbol-vs-field-paths");
+                if let Some(mis) = compare(exp, obs) {
+                    ctx.violation(format!("C10 symbol-path {mis}"), format!("{name}: a path starting at a symbol / field of the same name resolved to other data"), json!({"lookup": name, "observed": show_obs(obs), "expected": show_exp(exp)}));
+                }
+            }
+        }
+        Err(p) => ctx.violation("C10 name evaluation-failed", p, json!({})),
+    }
+}
+
 fn check_names(ctx: &mut Ctx, rng: &mut Rng) {
     // symbols and functions with near-miss names; lookups must hit exactly the registered name
     let names = ["Name", "name", "NAME", "nam", "name_", "facts", "a"];
@@ -340,6 +387,7 @@ fn run(ctx: &mut Ctx) {
     }
     if ctx.shard == 0 {
         check_index_spellings(ctx);
+        check_symbol_paths(ctx);
     }
     ctx.rng = rng;
 }
